@@ -67,6 +67,34 @@ PROPS = {
     "C16": dict(
         runs=lambda t: [special(t, "listvar", count=(6000, 150000))],
         corr=["corr.listvar", "corr.listvar.calls", "corr.const"], oracle=["oracle.C16"]),
+    "C11": dict(
+        runs=lambda t: [special(t, "bfhist", count=(16000, 200000))],
+        corr=["corr.bf", "corr.const"], oracle=["oracle.C11"],
+        rule="operation histories (up to 40 operations over four registers; indices, shifts and lengths drawn "
+             "around the capacity and byte boundaries) for BitList / BitVector of the 15 catalogue capacities and the "
+             "dynamic flavour; every observation after every step is compared; non-trivial = every history line"),
+    "C12": dict(
+        runs=lambda t: [special(t, "bfpairs,bfhist", count=(8000, 120000))],
+        corr=["corr.bf", "corr.const"], oracle=["oracle.C12"]),
+    "C13": dict(
+        runs=lambda t: [special(t, "bfhist,bfpairs,bfbytes,bfresize,bfwithlen", count=(6000, 80000))],
+        corr=["corr.bf", "corr.bf.bytes", "corr.bf.resize", "corr.bf.withlen", "corr.const"], oracle=["oracle.C13"]),
+    "C14": dict(
+        runs=lambda t: [special(t, "bfbytes,bfwithlen", count=(3000, 60000), extra=["--exhaustive", "1"]),
+                        dict(args=["--ops", "bfbytes", "--count", "16", "--exhaustive", "2"]) if t == "thorough" else
+                        dict(args=["--ops", "bfwithlen", "--count", "64"], shards=1)],
+        corr=["corr.bf.bytes", "corr.bf.withlen", "corr.const"], oracle=["oracle.C14"]),
+    "C17": dict(
+        runs=lambda t: [catalogue(t, "meta,enc,dec,app", values=(16, 120), nbytes=(150, 1500), exhaustive=(1, 1), tag="legacy")],
+        corr=CORR_ENC + CORR_DEC + ["corr.meta", "corr.bytes_len", "corr.append", "corr.as_bytes"],
+        oracle=["oracle.C01", "oracle.C02", "oracle.C03", "oracle.C04", "oracle.C07", "oracle.C10"]),
+    "C18": dict(
+        runs=lambda t: [special(t, "serde", count=(16000, 300000))],
+        corr=["corr.serde", "corr.const"], oracle=["oracle.C18"]),
+    "C20": dict(
+        runs=lambda t: [special(t, "arb", count=(16000, 300000))],
+        corr=["corr.arb", "corr.const"], oracle=["oracle.C20"],
+        aggregate="arb_reachable"),
     "C19": dict(
         runs=lambda t: [catalogue(t, "enc,dec", values=(16, 120), nbytes=(150, 1500), exhaustive=(1, 1), tag="coll")],
         corr=CORR_ENC + CORR_DEC, oracle=["oracle.C19"]),
